@@ -8,7 +8,8 @@ transformation (component / variable / equation order, three renamings) and judg
  (d) values: the generated C and Python are run and compared with the reference values (equation placement, C03).
 Family 'variant': under-/over-constrained and otherwise broken variants of every graph (must be classified as such, with an issue).
   --n=2|3   --edges=K (max read edges, n=3 quick)   --prop=C05"""
-import os, sys, json, shutil, tempfile
+import os
+import re, sys, json, shutil, tempfile
 V = os.path.dirname(os.path.dirname(os.path.abspath(__file__)))
 sys.path.insert(0, os.path.join(V, 'lib'))
 import depgraph as D
@@ -238,8 +239,20 @@ def families(opts):
             if len(set(place)) == 1 and (t.get('perm_comp') and len(t) == 1 or t.get('rename') in (2, 3, 4) or t.get('init_on_twin')):
                 continue  # no second component / no twins: the transformation is the identity
             L = D.Layout(kinds, reads, place, **t)
-            res = r.job({'id': ci, 'doc': L.render(), 'code': not t, 'ast': False})
+            job = {'id': ci, 'doc': L.render(), 'code': not t, 'ast': False}
+            if not t:
+                # afterwards: the same equations listed in the opposite order on the SAME model object, analysed again with the same
+                # analyser, generated with the same generator - must equal what fresh instances produce
+                job['regen_math'] = dict(re.findall(r'<component name="([^"]+)">.*?(<math .*?</math>)', D.Layout(kinds, reads, place, rev_eqs=True).render(), re.S))
+            res = r.job(job)
             ctx.judged += 1
+            rg = res.get('regen')
+            if rg is not None:
+                if rg.get('type_reused_analyser') != rg.get('type_fresh_analyser') or not rg.get('issues_same', True):
+                    rep('history:reused-analyser-differs-from-fresh-analyser-after-the-model-was-edited', {k: rg.get(k) for k in ('type_reused_analyser', 'type_fresh_analyser')}, t)
+                for k in ('c_h_same', 'c_c_same', 'py_same'):
+                    if rg.get(k) is False:
+                        rep('history:reused-generator-differs-from-fresh-generator-after-the-model-was-edited:' + k[:-5], {}, t)
             if 'crash' in res:
                 rep('pipeline-crash:' + res['crash'], {'stderr_tail': res.get('stderr', '')}, t)
                 continue
@@ -333,6 +346,83 @@ def families(opts):
                 if res.get(k):
                     ctx.violation('variant:code-generated-for-invalid-model', {'graph': desc, 'which': k})
 
+    # ---- two independent defects at once: under + over -> unsuitably constrained, under + under -> under
+    v2 = []
+
+    def v2cases():
+        if v2:
+            return v2
+        for ci, (kinds, reads, place) in enumerate(r.cases()):
+            n = len(kinds)
+            if 'G' in kinds or 'C' in kinds:
+                continue
+            # undirected connectivity through reads: the two defects must sit in unrelated parts of the model
+            adj = {i: set() for i in range(n)}
+            for i in range(n):
+                for j in reads[i]:
+                    if j != 't' and j != i:
+                        adj[i].add(j); adj[j].add(i)
+
+            def comp_of(i):
+                seen, todo = {i}, [i]
+                while todo:
+                    x = todo.pop()
+                    for y in adj[x]:
+                        if y not in seen:
+                            seen.add(y); todo.append(y)
+                return seen
+            strict_drop = [i for i in range(n) if kinds[i] in 'EN']
+            strict_dup = [i for i in range(n) if kinds[i] in 'ES' and not any(j != 't' and kinds[j] == 'K' for j in reads[i])]
+            strict_init = [i for i in range(n) if kinds[i] == 'S']
+            for (ka, la), (kb, lb), want in ((('drop_eq', strict_drop), ('dup_eq', strict_dup), 'unsuitably_constrained'),
+                                             (('drop_init', strict_init), ('dup_eq', strict_dup), 'unsuitably_constrained'),
+                                             (('drop_eq', strict_drop), ('drop_init', strict_init), 'underconstrained')):
+                for a_ in la:
+                    for b_ in lb:
+                        if a_ != b_ and b_ not in comp_of(a_):
+                            v2.append((ci, {ka: a_, kb: b_}, want))
+        return v2
+
+    def run_variant2(vi, ctx):
+        ci, kw, want = v2cases()[vi]
+        kinds, reads, place = r.cases()[ci]
+        desc = {'kinds': ''.join(kinds), 'reads': [sorted(map(str, x)) for x in reads], 'place': list(place), 'defects': kw}
+        seen = set()
+        for t in ({}, {'rev_eqs': True}, {'rev_vars': True, 'perm_comp': True}):
+            if len(set(place)) == 1 and t.get('perm_comp'):
+                t = {'rev_vars': True}
+            kk = dict(kw)
+            kk.update(t)
+            L = D.Layout(kinds, reads, place, **kk)
+            res = r.job({'id': vi, 'doc': L.render(), 'code': True})
+            ctx.judged += 1
+            if 'crash' in res:
+                ctx.violation('variant2:pipeline-crash:' + res['crash'], {'graph': desc, 'stderr_tail': res.get('stderr', '')})
+                return
+            for x in res.get('c15', []):
+                ctx.violation('C15:logger-incoherent:' + x['service'], x)
+            if res.get('parse_issues') or res.get('validate_errors'):
+                ctx.violation('variant2:harness-generated-invalid-document', {'graph': desc, 'issues': res.get('validate_issues')})
+                return
+            ty = res.get('type')
+            seen.add(ty)
+            ctx.outcome('%s:%s' % ('+'.join(sorted(kw)), ty))
+            if ty != want:
+                ctx.violation('variant2:%s:classified-as-%s-expected-%s' % ('+'.join(sorted(kw)), ty, want), {'graph': desc, 'transform': tname(t)})
+            if not res.get('analyse_issues'):
+                ctx.violation('C15:failure-not-explained:analyser', {'graph': desc, 'type': ty})
+            for k in ('c_h', 'c_c', 'py'):
+                if res.get(k):
+                    ctx.violation('variant:code-generated-for-invalid-model', {'graph': desc, 'which': k})
+        if len(seen) > 1:
+            ctx.violation('variant2:classification-changes-under-reordering', {'graph': desc, 'types': sorted(map(str, seen))})
+
+    def show_variant2(vi):
+        ci, kw, want = v2cases()[vi]
+        kinds, reads, place = r.cases()[ci]
+        return {'kinds': ''.join(kinds), 'reads': [sorted(map(str, x)) for x in reads], 'place': list(place), 'defects': kw, 'expected': want,
+                'document': D.Layout(kinds, reads, place, **kw).render()}
+
     def show_graph(ci):
         kinds, reads, place = r.cases()[ci]
         return {'kinds': ''.join(kinds), 'reads': [sorted(map(str, x)) for x in reads], 'place': list(place), 'truth': [sorted(x) for x in D.truth(kinds, reads)[0]],
@@ -390,7 +480,8 @@ def families(opts):
     atexit.register(r.cleanup)
     return [Family('names', lambda: len(name_cases()), run_names, lambda ni: {'long_class': str(name_cases()[ni][1]), 'graph': show_graph(name_cases()[ni][0])}),
             Family('graph', lambda: len(r.cases()), run_graph, show_graph),
-            Family('variant', lambda: len(vcases()), run_variant, lambda vi: {'variant': vcases()[vi][1], 'var': vcases()[vi][2], 'graph': show_graph(vcases()[vi][0])})]
+            Family('variant', lambda: len(vcases()), run_variant, lambda vi: {'variant': vcases()[vi][1], 'var': vcases()[vi][2], 'graph': show_graph(vcases()[vi][0])}),
+            Family('variant2', lambda: len(v2cases()), run_variant2, show_variant2)]
 
 
 if __name__ == '__main__':
